@@ -58,7 +58,27 @@ def check_reader_quoting(repo, rep, cons):
                 and try_const(v.left.left) == Q:
             return v.left.right
         return None
-    wraps = [n for n in body_walk(ex) if isinstance(n, ast.Assign) and wrapped_inner(n.value) is not None]
+    # expand_ref and the new helpers it calls (a helper the confirmed tree does not have is read as part of its caller)
+    from ..normalize import _pinned_functions
+    tree_x = repo.tree("xrefs.py")
+    cand = {}
+    for n in ast.walk(tree_x):
+        if isinstance(n, ast.FunctionDef) and n is not ex:
+            cand.setdefault(n.name, n)
+    pinned_x = {q.split(".")[-1] for q in _pinned_functions("xrefs.py")}
+    closure, todo = [ex], [ex]
+    while todo:
+        cur_ = todo.pop()
+        for c_ in ast.walk(cur_):
+            nm_ = last_attr(c_.func) if isinstance(c_, ast.Call) else None
+            if nm_ in cand and nm_ not in pinned_x and cand[nm_] not in closure:
+                closure.append(cand[nm_])
+                todo.append(cand[nm_])
+
+    def closure_walk():
+        for f_ in closure:
+            yield from body_walk(f_)
+    wraps = [n for n in closure_walk() if isinstance(n, (ast.Assign, ast.Return)) and n.value is not None and wrapped_inner(n.value) is not None]
     if not wraps:
         raise AnalysisError("expand_ref: the statement that puts a name in quotes was not found")
     inner = wrapped_inner(wraps[0].value)
@@ -67,13 +87,16 @@ def check_reader_quoting(repo, rep, cons):
     rep.ob("C18.R4", wraps[0], "a name the reader puts in quotes has its embedded quotes doubled, as the tokenizer's quoted-name pattern requires", ok,
            "" if ok else f"the name is wrapped as it is: a header named it{Q}s-x is printed {Q}it{Q}s-x{Q}, which the tokenizer rejects (TokenizerError)", key="C18.R4@quoting:embedded-quote-in-quoted-name")
     # (b) a name with a quote but no operator character
-    triples = [n for n in body_walk(ex) if isinstance(n, ast.Call) and last_attr(n.func) == "replace" and [try_const(a) for a in n.args] == [Q, Q * 3]]
+    triples = [n for n in closure_walk() if isinstance(n, ast.Call) and last_attr(n.func) == "replace" and [try_const(a) for a in n.args] == [Q, Q * 3]]
     bare = bool(triples) and not any(t is x for w in wraps for t in triples for x in ast.walk(w))
     rep.ob("C18.R4", triples[0] if triples else ex, "a name that contains a quote is printed as a quoted name", not bare,
            "" if not bare else f"the quote is tripled and the name left unquoted: a header named it{Q}s is printed it{Q * 3}s, which the tokenizer rejects (TokenizerError)",
            key="C18.R4@quoting:bare-quote")
     # (c) names that start with a character the tokenizer reads as something else
-    trig = [n for n in body_walk(ex) if isinstance(n, ast.Call) and call_name(n) == "any" and "OPERATOR_PRECEDENCE" in U(n)]
+    trig = [n for n in closure_walk() if isinstance(n, ast.Call) and call_name(n) == "any" and "OPERATOR_PRECEDENCE" in U(n)]
+    # the same test written as a loop over the operator table with a membership test on the name
+    trig += [n for n in closure_walk() if isinstance(n, ast.For) and U(n.iter).split(".")[0] == "OPERATOR_PRECEDENCE" and any(
+        isinstance(c, ast.Compare) and len(c.ops) == 1 and isinstance(c.ops[0], ast.In) and U(c.left) == U(n.target) for c in ast.walk(n))]
     if not trig:
         raise AnalysisError("expand_ref: the test that decides whether a name is quoted was not found")
     try:
@@ -338,7 +361,11 @@ def run(repo, rep, tier):
         len(builds) == len([r for r in body_walk(mo) if isinstance(r, ast.Return)])
     rep.ob("C18.R3", mo, "make_operand keeps the operand text unchanged", ok, "", key="C18.R3@make_operand")
     ms = repo.func("tokenizer.py", "Token.make_subexp")
-    ok = U(ms.body[-1]).replace(" ", "") == "returncls(value,type_,subtype)"
+    # every token built carries the value it was given: ``cls(value, ...)`` on each return, the parameter never rebound
+    vp_ = ms.args.args[1].arg
+    rets_ = [r for r in body_walk(ms) if isinstance(r, ast.Return)]
+    rebound_ = any(isinstance(x, ast.Name) and x.id == vp_ and isinstance(x.ctx, (ast.Store, ast.Del)) for x in ast.walk(ms))
+    ok = bool(rets_) and not rebound_ and all(isinstance(r.value, ast.Call) and U(r.value.func) == "cls" and r.value.args and U(r.value.args[0]) == vp_ for r in rets_)
     rep.ob("C18.R3", ms, "make_subexp keeps the token text unchanged", ok, "", key="C18.R3@make_subexp")
     ti = repo.func("tokenizer.py", "Token.__init__")
     ok = "self.value = value" in U(ti)
